@@ -191,6 +191,8 @@ func ExecOp(o hx.T) any {
 		return wsFramed(o.List(0))
 	case "OBigFrame":
 		return bigFrame(o.Bool(0), o.Int(1), o.Int(2))
+	case "OBigMsg":
+		return bigMsg(o.Bool(0), o.Int(1), o.Int(2))
 	case "OSweep":
 		return hx.C("RSweep", sweep(int(o.Int(0))))
 	}
@@ -293,6 +295,46 @@ func bigFrame(ws bool, t, n int64) any {
 			got, _ = framedRaw([][]byte{b}, 0)
 		}
 		return hx.C("RBig", len(got) == 1 && string(got[0]) == string(b))
+	})
+}
+
+// bigMsg: a request (id 300, route "a.b.c" spelled out) with a payload of n bytes - kind 0: a
+// run of equal bytes, kind 1: a 251-periodic ramp, both highly compressible - through the whole
+// wire path: message Encode (compression as given), packet Encode, packet Decode, message Decode.
+// Only a summary is compared (every carried field came back: yes/no), so that payloads far above
+// the 16 MiB packet limit (they deflate to a few KiB) can be driven.
+func bigMsg(compress bool, kind, n int64) any {
+	return guard(func() any {
+		message.VerifResetDictionary()
+		data := make([]byte, n)
+		for i := range data {
+			if kind == 0 {
+				data[i] = 0x41
+			} else {
+				data[i] = byte(i % 251)
+			}
+		}
+		m := &message.Message{Type: message.Request, ID: 300, Route: "a.b.c", Data: data}
+		b, err := msgEncs[compress].Encode(m)
+		if err != nil {
+			return errTerm(err)
+		}
+		p, err := pktEnc.Encode(packet.Data, b)
+		if err != nil {
+			return errTerm(err)
+		}
+		ps, err := pktDec.Decode(p)
+		if err != nil {
+			return errTerm(err)
+		}
+		if len(ps) != 1 || ps[0].Type != packet.Data {
+			return hx.C("RBig", false)
+		}
+		d, err := message.Decode(ps[0].Data)
+		if err != nil {
+			return errTerm(err)
+		}
+		return hx.C("RBig", d.Type == message.Request && d.ID == 300 && d.Route == "a.b.c" && !d.Err && string(d.Data) == string(data))
 	})
 }
 
@@ -745,6 +787,15 @@ func Run(cfg *hx.Config) error {
 	}
 	for _, n := range bigs {
 		emit(cfg, "big-frame", []hx.T{hx.C("OBigFrame", true, int64(4), n), hx.C("OBigFrame", false, int64(4), n)}, map[string]bool{"big-frame": true})
+	}
+	// payloads around and far above 16 MiB with compression on (the packet limit applies to the
+	// deflated body, not to the payload), and just below the limit with compression off
+	bm := [][3]int64{{1, 0, 1 << 24}, {1, 1, 1<<24 + 1}, {1, 0, 20 << 20}, {0, 1, 1<<24 - 10}, {0, 0, 1<<24 - 9}}
+	if cfg.Tier == "thorough" {
+		bm = append(bm, [3]int64{1, 1, 1<<24 - 1}, [3]int64{1, 0, 1<<24 + 1}, [3]int64{1, 1, 40 << 20}, [3]int64{1, 0, 64 << 20}, [3]int64{0, 0, 1<<24 - 64}, [3]int64{0, 1, 1 << 24})
+	}
+	for _, c := range bm {
+		emit(cfg, "big-msg", []hx.T{hx.C("OBigMsg", c[0] == 1, c[1], c[2])}, map[string]bool{"big-msg": true})
 	}
 	// results of earlier calls must survive later calls on the same decoder / encoder objects
 	nre := 20
